@@ -33,7 +33,7 @@ RULE = ("seeded clean motif networks (cliques 2-4, 4-/5-cycles, 1-3 topologies, 
         "rewire() called again); 30% of the networks rebuilt with another vertex insertion order; on single-edge motif networks half of "
         "the histories run a SECOND rewiring stage on the first stage's result (given graph compared before / after, result judged like "
         "any state); 30% of the histories end by giving the SAME rewiring object a second network (same spec, vertex labels permuted, half of the time two disjoint copies: twice the edges) "
-        "through its setter; distinct_states = distinct final rewired graphs (edge set with annotations)")
+        "through its setter; 30% replace the TARGET on the live object through the `ejks` setter and rewire again; distinct_states = distinct final rewired graphs (edge set with annotations)")
 ASSUMPTIONS = ["prefix histories: rewire() is a pure function of the decision stream, so limit L+1 extends limit L by one swap",
                "decision budget exhaustion is inconclusive: rewire() has no termination guarantee and no property claims one",
                "clean networks come from a direct constructor (stub) through the library's own edge-list -> network conversion"]
